@@ -292,13 +292,15 @@ fn probe_isolated(prop: &'static str, seed: u64, hang_budget: Duration) -> Optio
     let reader = std::thread::spawn(move || {
         for line in BufReader::new(stdout).lines().map_while(|l| l.ok()) {
             let f: Vec<&str> = line.split(' ').collect();
-            if f.len() == 2 && (f[0] == "QB" || f[0] == "QE") {
+            if f.len() == 2 && (f[0] == "QB" || f[0] == "QE" || f[0] == "TB" || f[0] == "TE") {
                 if let Ok(i) = f[1].parse::<u64>() {
                     let mut g = inf2.lock().unwrap();
-                    if f[0] == "QB" {
-                        g.insert(i | (1 << 40), (255, String::new()));
+                    // pair probes: bit 40, marker 255; three-opcode probes: bit 41, marker 254
+                    let (bit, marker) = if f[0].starts_with('Q') { (1u64 << 40, 255u8) } else { (1u64 << 41, 254u8) };
+                    if f[0].ends_with('B') {
+                        g.insert(i | bit, (marker, String::new()));
                     } else {
-                        g.remove(&(i | (1 << 40)));
+                        g.remove(&(i | bit));
                     }
                     *last2.lock().unwrap() = Instant::now();
                 }
@@ -339,11 +341,21 @@ fn probe_isolated(prop: &'static str, seed: u64, hang_budget: Duration) -> Optio
     // attribute: re-execute the probes that were in flight, each alone
     let cands: Vec<(u64, (u8, String))> = inflight.lock().unwrap().iter().map(|(k, v)| (*k, v.clone())).collect();
     for (i, (p, hexpat)) in cands {
+        if p == 254 {
+            // a three-opcode probe: the 10-repetition steering run and the two cost runs
+            for sc in engine::triple_probe_scenarios((i & !(1 << 41)) as usize) {
+                if let Some(v) = exec_isolated(prop, &sc, hang_budget).into_iter().next() {
+                    return Some(Found { index: i, scenario: sc, violation: v });
+                }
+            }
+            continue;
+        }
         if p == 255 {
             // an opcode-pair probe
-            let Some(sc) = engine::pair_probe_scenario((i & !(1 << 40)) as usize) else { continue };
-            if let Some(v) = exec_isolated(prop, &sc, hang_budget).into_iter().next() {
-                return Some(Found { index: i, scenario: sc, violation: v });
+            for sc in engine::pair_probe_scenarios((i & !(1 << 40)) as usize) {
+                if let Some(v) = exec_isolated(prop, &sc, hang_budget).into_iter().next() {
+                    return Some(Found { index: i, scenario: sc, violation: v });
+                }
             }
             continue;
         }
